@@ -488,7 +488,7 @@ def canon(e):
     if h == "call":
         return ("call", e[1], tuple(canon(a) for a in e[2]))
     if h == "ucall":
-        return ("ucall", e[1], tuple(canon(a) for a in e[2]), e[3])
+        return ("ucall", e[1], tuple(canon(a) for a in e[2]), e[3] if len(e) > 3 else None)
     if h == "phi":
         if len(e) > 2:
             return ("phi", e[2])
